@@ -560,8 +560,9 @@ def lammpstrj_reader(
     if reader_class.file_object is None:
         return trajectory, box
     for i, line in enumerate(iter(reader_class.file_object.readline, "")):
-        if i == 0 and line == "\n":
-            # In case where newline wasn't written after we finished reading
+        if i == 0 and line.endswith("\n") and not line.strip():
+            # In case where newline (or the blank LAMMPS writes before it)
+            # wasn't written after we finished reading
             # the whole frame (except the newline characte) so the
             # previous_position points to the newline character, giving an
             # extra line (which is just a newline) so we skip it here and start
